@@ -10,6 +10,12 @@
 #include <cppcms/archive_traits.h>
 #include <cppcms/json.h>
 #include <booster/shared_ptr.h>
+#include <cppcms/session_interface.h>
+#include <cppcms/session_pool.h>
+#include <cppcms/http_cookie.h>
+#include <cppcms/cache_interface.h>
+#include <cppcms/service.h>
+#include <cppcms/util.h>
 #include <map>
 #include <set>
 #include <list>
@@ -206,6 +212,17 @@ static void all_types(int shard,int nshards){ int counter=0;
 	TP(VecVecS,"vector<vector<string>>"); TP(MapSMapIS,"map<string,map<int,string>>"); TP(PVecS,"shared_ptr<vector<string>>"); TP(VecPStr,"vector<shared_ptr<string>>"); TP(VecUser,"vector<User>"); TP(PairIVD,"pair<int,vector<double>>");
 }
 
+
+// ---- the convenience calls: session_interface::store_data/fetch_data and cache_interface::store_data/fetch_data ------
+struct ConvJar : public cppcms::session_interface_cookie_adapter { std::map<std::string,std::string> c; void set_cookie(cppcms::http::cookie const &k){ if(k.value().empty()) c.erase(k.name()); else c[k.name()]=cppcms::util::urldecode(k.value()); } std::string get_session_cookie(std::string const &n){ return c.count(n)?c[n]:std::string(); } std::set<std::string> get_cookie_names(){ std::set<std::string> s; for(std::map<std::string,std::string>::iterator i=c.begin();i!=c.end();++i) s.insert(i->first); return s; } };
+static void convenience_pass(){ std::vector<User> us; U<User>::get(us); { User big; big.id=-5; big.name=std::string(700,'n'); for(int i=0;i<30;i++) big.tags.push_back(std::string(i,'t')); us.push_back(big); }
+	cppcms::json::value sc; sc["session"]["location"]="client"; sc["session"]["client"]["hmac"]="sha1"; sc["session"]["client"]["hmac_key"]="00112233445566778899aabbccddeeff00112233"; cppcms::session_pool pool(sc); pool.init();
+	cppcms::json::value cc; cc["service"]["api"]="http"; cc["service"]["port"]=0; cc["service"]["disable_global_exit_handling"]=true; cc["cache"]["backend"]="thread_shared"; cc["cache"]["limit"]=100; cc["logging"]["level"]="emergency"; cppcms::service srv(cc); cppcms::cache_interface ci(srv);
+	for(size_t i=0;i<us.size();i++){ vf::eval(); ConvJar jar; { cppcms::session_interface s1(pool,jar); s1.load(); s1.store_data("obj",us[i]); s1.save(); } { cppcms::session_interface s2(pool,jar); s2.load(); User back; try{ s2.fetch_data("obj",back); if(canon(back)!=canon(us[i])) vf::violation("convenience:session-roundtrip","object stored with session store_data comes back different","\"case\":\"session store_data/fetch_data\""); else vf::guard("session_store_data_roundtrips"); }catch(std::exception const &e){ vf::violation("convenience:session-throws",std::string("session fetch_data throws on stored object: ")+e.what(),"\"case\":\"session\""); }
+			// damaged stored value: every truncation -> must throw or equal the strict reference
+			std::string good=s2.get("obj"); for(size_t n=0;n<good.size();n+= (good.size()>300?13:1)){ vf::eval(); s2.set("obj",good.substr(0,n)); User b2; bool ok=true; try{ s2.fetch_data("obj",b2); }catch(std::exception const &){ ok=false; } Ref r(s2.get("obj")); std::string cut=good.substr(0,n); Ref rr(cut); User ru; bool rok=RL<User>::load(rr,ru); if(ok&&(!rok||canon(ru)!=canon(b2))) vf::violation("convenience:session-damaged","fetch_data accepts a truncated stored object","\"case\":\"session truncated\""); vf::guard("session_damaged_values"); } }
+		ci.store_data("obj"+std::to_string(i),us[i]); User cb; if(!ci.fetch_data("obj"+std::to_string(i),cb)||canon(cb)!=canon(us[i])) vf::violation("convenience:cache-roundtrip","object stored with cache store_data comes back different or is missing","\"case\":\"cache store_data/fetch_data\""); else vf::guard("cache_store_data_roundtrips"); } }
+
 template<class T> bool replay_t(const char *want,const std::string &tname,const std::string &bytes){ if(tname!=want) return false; std::string c=load_case<T>(want,bytes); printf("replay: type=%s outcome=%s\n",want,c.substr(0,200).c_str()); return true; }
 static void replay(const std::string &file){ std::ifstream f(file); std::stringstream ss; ss<<f.rdbuf(); std::string l=ss.str(); std::string t=vf::jfield(l,"type"),b=vf::unhex(vf::jfield(l,"archive_hex")); g_phase="replay";
 	if(t.empty()){ std::string c=vf::jfield(l,"case"); size_t a=c.find(' '),z=c.rfind(' '); if(a!=std::string::npos){ t=c.substr(0,a); b=vf::unhex(c.substr(z+1)); } }
@@ -219,12 +236,12 @@ int main(int argc,char **argv){
 	vf::init(argc,argv,"C19","exploration");
 	if(!vf::C().replay_file.empty()){ replay(vf::C().replay_file); return vf::finish(); }
 	int depth=vf::thorough()?6:4;
-	vf::C().rule="(a) every value of a generated universe for 27 types (element counts 0,1,2,3; atoms incl. NUL strings, 300-byte string, NaN-free doubles, null/non-null pointers, user class, fixed arrays, json) saved and loaded; (b) for every such archive: every truncation, +1..4 trailing bytes, every 4-byte length field set to each of {0,1,2,3,4,5,8,cur-1,cur+1,rem-1..rem+5,2^31-1,2^32-4..2^32-1}, every byte replaced by 00/01/ff; (c) every sequence of <= "+std::to_string(depth)+" tokens from {12 length fields, 00, 01, 'abcd', 4 eight-byte counts} loaded as 9 types. Each load is compared with a strict reference chunk reader. distinct = distinct (type, outcome class incl. loaded value); non-trivial = non-empty archive in which at least one chunk header was well-formed or the load succeeded";
+	vf::C().rule="(a) every value of a generated universe for 27 types (element counts 0,1,2,3; atoms incl. NUL strings, 300-byte string, NaN-free doubles, null/non-null pointers, user class, fixed arrays, json) saved and loaded; (b) for every such archive: every truncation, +1..4 trailing bytes, every 4-byte length field set to each of {0,1,2,3,4,5,8,cur-1,cur+1,rem-1..rem+5,2^31-1,2^32-4..2^32-1}, every byte replaced by 00/01/ff; (c) every sequence of <= "+std::to_string(depth)+" tokens from {12 length fields, 00, 01, 'abcd', 4 eight-byte counts} loaded as 9 types. Each load is compared with a strict reference chunk reader. (d) user objects through session_interface::store_data/fetch_data (incl. every truncation of the stored value) and cache_interface::store_data/fetch_data. distinct = distinct (type, outcome class incl. loaded value); non-trivial = non-empty archive in which at least one chunk header was well-formed or the load succeeded";
 	vf::assume("the strict chunk reader ([u32 little-endian length][bytes], length <= bytes remaining) is the format definition; json chunks are parsed with json::value::load");
 	vf::assume("throwing any std::exception on malformed input is admissible");
 	int np=16;
-	vf::parallel(np,np,[&](int sh){ all_types(sh,np); token_pass(depth,sh,np); },vf::thorough()?1200:300);
+	vf::parallel(np,np,[&](int sh){ all_types(sh,np); token_pass(depth,sh,np); if(sh==0) convenience_pass(); },vf::thorough()?1200:300);
 	vf::C().extra["token_depth"]=std::to_string(depth);
-	vf::require_guard("roundtrips"); vf::require_guard("lenfield_1to3_past_end"); vf::require_guard("truncation_refused"); vf::require_guard("token_archives_loaded");
+	vf::require_guard("roundtrips"); vf::require_guard("session_store_data_roundtrips"); vf::require_guard("cache_store_data_roundtrips"); vf::require_guard("session_damaged_values"); vf::require_guard("lenfield_1to3_past_end"); vf::require_guard("truncation_refused"); vf::require_guard("token_archives_loaded");
 	return vf::finish();
 }
